@@ -22,3 +22,77 @@ package oras
 //@   ensures [C01:order] forall k, l int :: 0 <= k && k < l && l < len(result) ==> rfSrc(k) < rfSrc(l)
 //@   ensures [C01:complete] forall m int :: 0 <= m && m < len(descs) && !isForeign(old(descs[m])) ==> (exists k int :: 0 <= k && k < len(result) && rfSrc(k) == m)
 //@   modifies elems[ocispec.Descriptor], ghost.rfSrc
+//@
+//@ // ---------------------------------------------------------------- pack (C19)
+//@ import content "oras.land/oras-go/v2/content"
+//@ import errdef "oras.land/oras-go/v2/errdef"
+//@ import spec "oras.land/oras-go/v2/internal/spec"
+//@ import time "time"
+//@
+//@ pure validMT(s string) bool = reMatch(mediaTypeRegexp, s)
+//@ ghost local mfCalls int
+//@
+//@ func validateMediaType
+//@   ensures [C19:exact] (result == nil) == validMT(mediaType)
+//@   modifies alloc, elems[any]
+//@
+//@ func ensureAnnotationCreated
+//@   ensures [C19:given-created-kept] annotationCreatedKey in annotations && rfc3339OK(annotations[annotationCreatedKey]) ==> result1 == nil && result0 == annotations && clockReads == old(clockReads)
+//@   ensures [C19:invalid-created-rejected] annotationCreatedKey in annotations && !rfc3339OK(annotations[annotationCreatedKey]) ==> errors.Is(result1, ErrInvalidDateTimeFormat) && clockReads == old(clockReads)
+//@   ensures [C19:error-only-for-invalid-created] result1 != nil ==> annotationCreatedKey in annotations && !rfc3339OK(annotations[annotationCreatedKey])
+//@   ensures [C19:absent-created-copied] !(annotationCreatedKey in annotations) ==> result1 == nil && result0 != nil && !old(alive(result0)) && annotationCreatedKey in result0
+//@   modifies alloc, new map[string]string, ghost.clockReads, elems[any]
+//@
+//@ func pushIfNotExist
+//@   requires [wf] pusher != nil
+//@   ensures [C19:nil-means-present] result == nil ==> present(pusher, K(desc))
+//@   ensures [C19:at-most-one-push] pushes(pusher) <= old(pushes(pusher)) + 1 && pushes(pusher) >= old(pushes(pusher))
+//@   ensures [C19:pushed-is-desc] pushes(pusher) == old(pushes(pusher)) + 1 ==> lastPush(pusher) == desc
+//@   ensures [monotone] forall k descriptor.Descriptor :: old(present(pusher, k)) ==> present(pusher, k)
+//@   modifies ghost.pushes, ghost.lastPush, ghost.present, ghost.readerOver, alloc, elems[any]
+//@
+//@ func pushManifest
+//@   requires [wf] pusher != nil
+//@   call .Push requires [C19:descriptor-of-pushed-bytes] args.expected.Digest == digestOfBytes(manifestJSON) && args.expected.Size == len(manifestJSON) && readerOver(args.content) == manifestJSON
+//@   ensures [C19:descriptor-fields] result1 == nil ==> result0.MediaType == (mediaType == "" ? "application/octet-stream" : mediaType) && result0.ArtifactType == artifactType && result0.Annotations == annotations
+//@   ensures [C19:pushed-or-exists] result1 == nil ==> pushes(pusher) == old(pushes(pusher)) + 1 && lastPush(pusher) == result0 && present(pusher, K(result0))
+//@   ensures [C19:one-push-at-most] pushes(pusher) <= old(pushes(pusher)) + 1
+//@   ensures [monotone] forall k descriptor.Descriptor :: old(present(pusher, k)) ==> present(pusher, k)
+//@   modifies ghost.pushes, ghost.lastPush, ghost.present, ghost.readerOver, alloc, elems[any], new elems[byte]
+//@
+//@ func pushCustomEmptyConfig
+//@   requires [wf] pusher != nil
+//@   ensures [C19:config-present] result1 == nil ==> present(pusher, K(result0)) && result0.MediaType == (mediaType == "" ? "application/octet-stream" : mediaType) && result0.Annotations == annotations && result0.Size == 2
+//@   ensures [monotone] forall k descriptor.Descriptor :: old(present(pusher, k)) ==> present(pusher, k)
+//@   modifies ghost.pushes, ghost.lastPush, ghost.present, ghost.readerOver, alloc, elems[any], new elems[byte]
+//@
+//@ func packManifestV1_1
+//@   requires [wf] pusher != nil
+//@   entry set mfCalls = 0
+//@   call pushManifest set mfCalls = mfCalls + 1
+//@   call pushManifest requires [C19:invented-blobs-present] (opts0.ConfigDescriptor == nil ==> present(pusher, K(ocispec.DescriptorEmptyJSON))) && (len(opts0.Layers) == 0 ==> present(pusher, K(ocispec.DescriptorEmptyJSON)))
+//@   call pushManifest requires [C19:manifest-fields] as(args.manifest, ocispec.Manifest).Subject == opts0.Subject && as(args.manifest, ocispec.Manifest).ArtifactType == artifactType && as(args.manifest, ocispec.Manifest).MediaType == "application/vnd.oci.image.manifest.v1+json" && (len(opts0.Layers) != 0 ==> as(args.manifest, ocispec.Manifest).Layers == opts0.Layers) && (opts0.ConfigDescriptor != nil ==> as(args.manifest, ocispec.Manifest).Config == *opts0.ConfigDescriptor)
+//@   call pushManifest requires [C19:manifest-placeholders] (opts0.ConfigDescriptor == nil ==> K(as(args.manifest, ocispec.Manifest).Config) == K(ocispec.DescriptorEmptyJSON) && as(args.manifest, ocispec.Manifest).Config.Annotations == opts0.ConfigAnnotations) && (len(opts0.Layers) == 0 ==> len(as(args.manifest, ocispec.Manifest).Layers) == 1 && as(args.manifest, ocispec.Manifest).Layers[0] == ocispec.DescriptorEmptyJSON)
+//@   call pushManifest requires [C19:descriptor-type-and-annotations] args.mediaType == "application/vnd.oci.image.manifest.v1+json" && args.artifactType == artifactType && args.annotations == as(args.manifest, ocispec.Manifest).Annotations
+//@   ensures [C19:missing-artifacttype-no-push] artifactType == "" && (opts0.ConfigDescriptor == nil || opts0.ConfigDescriptor.MediaType == "application/vnd.oci.empty.v1+json") ==> result1 == ErrMissingArtifactType && pushes(pusher) == old(pushes(pusher))
+//@   ensures [C19:bad-artifacttype-no-push] artifactType != "" && !validMT(artifactType) ==> result1 != nil && pushes(pusher) == old(pushes(pusher))
+//@   ensures [C19:bad-config-mediatype-no-push] opts0.ConfigDescriptor != nil && !validMT(opts0.ConfigDescriptor.MediaType) ==> result1 != nil && pushes(pusher) == old(pushes(pusher))
+//@   ensures [C19:bad-created-no-manifest-push] ocispec.AnnotationCreated in opts0.ManifestAnnotations && !rfc3339OK(opts0.ManifestAnnotations[ocispec.AnnotationCreated]) ==> result1 != nil && mfCalls == 0
+//@   ensures [C19:success-means-manifest-pushed] result1 == nil ==> mfCalls == 1 && lastPush(pusher) == result0 && present(pusher, K(result0))
+//@
+//@ func packManifestV1_0
+//@   requires [wf] pusher != nil
+//@   entry set mfCalls = 0
+//@   call pushManifest set mfCalls = mfCalls + 1
+//@   call pushManifest requires [C19:manifest-fields] as(args.manifest, ocispec.Manifest).Subject == nil && as(args.manifest, ocispec.Manifest).MediaType == "application/vnd.oci.image.manifest.v1+json" && (opts0.Layers != nil ==> as(args.manifest, ocispec.Manifest).Layers == opts0.Layers) && (opts0.Layers == nil ==> len(as(args.manifest, ocispec.Manifest).Layers) == 0) && (opts0.ConfigDescriptor != nil ==> as(args.manifest, ocispec.Manifest).Config == *opts0.ConfigDescriptor)
+//@   call pushManifest requires [C19:invented-blobs-present] opts0.ConfigDescriptor == nil ==> present(pusher, K(as(args.manifest, ocispec.Manifest).Config)) && as(args.manifest, ocispec.Manifest).Config.MediaType == (artifactType0 == "" ? "application/vnd.unknown.config.v1+json" : artifactType0) && as(args.manifest, ocispec.Manifest).Config.Annotations == opts0.ConfigAnnotations
+//@   call pushManifest requires [C19:descriptor-type-and-annotations] args.mediaType == "application/vnd.oci.image.manifest.v1+json" && args.artifactType == as(args.manifest, ocispec.Manifest).Config.MediaType && args.annotations == as(args.manifest, ocispec.Manifest).Annotations
+//@   ensures [C19:subject-rejected-no-push] opts0.Subject != nil ==> errors.Is(result1, errdef.ErrUnsupported) && pushes(pusher) == old(pushes(pusher))
+//@   ensures [C19:bad-config-mediatype-no-push] opts0.Subject == nil && opts0.ConfigDescriptor != nil && !validMT(opts0.ConfigDescriptor.MediaType) ==> result1 != nil && pushes(pusher) == old(pushes(pusher))
+//@   ensures [C19:bad-artifacttype-no-push] opts0.Subject == nil && opts0.ConfigDescriptor == nil && artifactType0 != "" && !validMT(artifactType0) ==> result1 != nil && pushes(pusher) == old(pushes(pusher))
+//@   ensures [C19:bad-created-no-manifest-push] ocispec.AnnotationCreated in opts0.ManifestAnnotations && !rfc3339OK(opts0.ManifestAnnotations[ocispec.AnnotationCreated]) ==> result1 != nil && mfCalls == 0
+//@   ensures [C19:success-means-manifest-pushed] result1 == nil ==> mfCalls == 1 && lastPush(pusher) == result0 && present(pusher, K(result0))
+//@
+//@ func PackManifest
+//@   requires [wf] pusher != nil
+//@   ensures [C19:unsupported-version-no-push] packManifestVersion != 1 && packManifestVersion != 2 ==> errors.Is(result1, errdef.ErrUnsupported) && pushes(pusher) == old(pushes(pusher))
